@@ -183,7 +183,13 @@ LEAVES = [0, -7, 12345678901234567890, 1.5, -0.0, 1e22, 1.5e-7, 1e16, True, Fals
 
 def fill(shape, it):
     if shape == 'x':
-        return next(it)
+        leaf = next(it)
+        # the value must be tree-shaped: PyYAML anchors a date object that occurs twice
+        if isinstance(leaf, datetime.datetime):
+            return leaf.replace()
+        if isinstance(leaf, datetime.date):
+            return leaf.replace()
+        return leaf
     if isinstance(shape, list):
         return [fill(s, it) for s in shape]
     return OrderedDict((k, fill(v, it)) for k, v in shape.items())
